@@ -27,13 +27,23 @@ impl<T> Deref for Gc<T> {
     #[verifier::external_body]
     fn deref(&self) -> (r: &T) ensures *r == self.obj() { unimplemented!() }
 }
+// memory.rs Gc::as_ptr: the address of the cell (a function of the cell's identity, different for different cells)
+pub uninterp spec fn addr_of(cell: int) -> usize;
+impl<T> Gc<T> {
+    #[verifier::external_body] pub fn as_ptr(&self) -> (r: usize) ensures r == addr_of(self.id()) { unimplemented!() }
+}
+pub trait ToF64 { spec fn f(self) -> f64; fn verif_to_f64(self) -> (r: f64) ensures r == self.f(); }
+impl ToF64 for usize {
+    uninterp spec fn f(self) -> f64;
+    #[verifier::external_body] fn verif_to_f64(self) -> (r: f64) { unimplemented!() }
+}
 // memory.rs `impl PartialEq for Gc<T>`: pointer identity
 #[verifier::external_body]
 fn gc_eq<T>(a: Gc<T>, b: Gc<T>) -> (r: bool) ensures r == (a.id() == b.id()) { unimplemented!() }
 
 pub struct RefCell<T> { pub v: T }
-pub struct ObjString { }
-pub struct ObjClass { }
+pub struct ObjString { pub hash: u64 }
+pub struct ObjClass { pub name: Gc<ObjString> }
 pub struct ObjStringIter { } pub struct ObjFunction { } pub struct ObjNative { } pub struct ObjClosure { } pub struct ObjInstance { }
 pub struct ObjBoundMethod<T> { pub m: Gc<T> } pub struct ObjTupleIter { } pub struct ObjVecIter { } pub struct ObjRangeIter { }
 pub struct ObjModule { } pub struct ObjFiber { }
@@ -76,6 +86,56 @@ impl Value {
     //@  ensures @these_kinds_are_accepted_as_keys is_key_kind(*self) ==> r
     //@end
 }
+
+// ------------------------------------------------------------------ the hash side (impl Hash for Value)
+// utils::hash_number (its coherence with == on numbers: Kani unit utils) and the isize -> f64 cast: uninterpreted
+pub uninterp spec fn hn(x: f64) -> u64;
+pub uninterp spec fn i2f(x: int) -> f64;
+#[verifier::external_body] fn hash_number(x: f64) -> (r: u64) ensures r == hn(x) { unimplemented!() }
+#[verifier::external_body] fn isize_to_f64(x: isize) -> (r: f64) ensures r == i2f(x as int) { unimplemented!() }
+#[verifier::external_body] fn verif_unhashable() -> (r: u64) requires false { unimplemented!() }
+// the hash stored in an interned string is part of the cell's content: the same cell, the same hash
+pub uninterp spec fn str_hash(cell: int) -> u64;
+pub uninterp spec fn class_hash(cell: int) -> u64;
+pub broadcast axiom fn axiom_string_hash_is_content(g: Gc<ObjString>) ensures #[trigger] g.obj().hash == str_hash(g.id());
+pub broadcast axiom fn axiom_class_name_is_content(c: Gc<ObjClass>) ensures #[trigger] c.obj().name.obj().hash == class_hash(c.id());
+pub open spec fn key_hash(k: Key) -> u64 {
+    match k {
+        Key::Bool(b) => if b { 1u64 } else { 0u64 },
+        Key::Str(id) => str_hash(id),
+        Key::Class(id) => class_hash(id),
+        Key::Range(b, e) => hn(i2f(b)) ^ hn(i2f(e)),
+        Key::Nil => 2u64,
+    }
+}
+// std::hash::Hasher as far as Value::hash is concerned: what was written
+pub struct HashSink { pub ghost written: Seq<u64> }
+impl HashSink {
+    #[verifier::external_body] fn write_u64(&mut self, x: u64) ensures final(self).written == old(self).written.push(x) { unimplemented!() }
+}
+impl Value {
+    // The hash of a key of these kinds is a function of its ABSTRACT key — so keys the language's `==` identifies
+    // (previous function) hash alike, which is what std's table needs to find them.
+    //@fn file=yarel/src/value.rs path="<Hash for Value>::hash" obname=Value::hash
+    //@  keep_arms Value Boolean,ObjString,ObjClass,ObjRange,None
+    //@  sig "fn hash<H: std::hash::Hasher>(&self, state: &mut H)" => "fn hash(&self, state: &mut HashSink)"
+    //@  subst "utils::hash_number(" => "hash_number("
+    //@  subst " as usize as f64" => ".verif_to_f64()"
+    //@  subst "r.begin as f64" => "isize_to_f64(r.begin)"
+    //@  subst "r.end as f64" => "isize_to_f64(r.end)"
+    //@  subst "panic!(\"Unhashable value type: {}\", self);" => "verif_unhashable()"
+    //@  requires is_key_kind(*self)
+    //@  at body.start broadcast use axiom_string_hash_is_content; broadcast use axiom_class_name_is_content;
+    //@  ensures @the_hash_of_a_key_is_a_function_of_its_abstract_key final(state).written == old(state).written.push(key_hash(key_of(*self)))
+    //@end
+}
+
+// C12 for these kinds, unbounded: keys that are `==` hash alike
+//@lemma name=equal_keys_hash_alike props=C12
+pub proof fn equal_keys_hash_alike(a: Value, b: Value)
+    requires is_key_kind(a), is_key_kind(b), key_of(a) == key_of(b)
+    ensures key_hash(key_of(a)) == key_hash(key_of(b))
+{}
 
 // `==` on these kinds is the equality of abstract keys, hence an equivalence relation that is stable over time (it
 // mentions no mutable state: a range object's bounds are never written after construction — unit rangecache, C18).
